@@ -1072,7 +1072,7 @@ func TestCheck(t *testing.T) {
 	run.Assume("an Invoke may return the context's error instead of the batch outcome once cancel() of its context has been begun before it returned (lenient reading of 'or the batch's error')")
 	run.Assume("all log sequence numbers come from one atomic counter: Invoke call is logged before the call, Invoke return after it, Many entry/exit inside Many")
 	agg := vlib.NewHitAgg()
-	n := run.N(12000, 200000)
+	n := run.N(12000, 400000)
 	run.Each(n, 1, func(i int) {
 		if run.Violations() >= 6 {
 			run.Count("skipped_after_violations", 1)
